@@ -9,7 +9,7 @@ import Uft.Model.Crash
    P <t> write <id> <size> <payload> | bump | bump2 | end <id> <size> <payload> | pick <ok> | start | mark
          | lostadd <n> | drop <id> <size> <payload>             micro-steps
    K <t>                                                     kill
-   R read | R flush <t> <i> | R stop | R remaining | R shutdown
+   R read | R flush <t> <i> | R flushall | R stop | R remaining | R shutdown
    W <w> pick | write | splice
    SEGV <fixed:0|1> <maxstack> <idx> <written…>               segv_handler's flush (Crash.segvFlush): idx calls are
                                                              open, function k at depth k, innermost first flags
@@ -130,6 +130,9 @@ def handle (st : St) : List String → St × String
   | ["R", "flush", t, i] => act st (.rFlush t.toNat! i.toNat!)
   | ["R", "stop"] => act st .rStop
   | ["R", "remaining"] => act st .rRemaining
+  | ["R", "flushall"] =>
+    let st' := { st with s := Crash.flushAll st.cfg st.s }
+    (st', "ok " ++ showState st')
   | ["R", "shutdown"] =>
     let st' := { st with s := Crash.shutdown st.cfg st.s }
     (st', "ok " ++ showState st')
